@@ -5,9 +5,96 @@ From Coq Require Import String.
 From Coq Require Import List NArith ZArith Bool Arith Permutation.
 From Coq Require Import Init.Byte.
 From FFS Require Import Base.Res Base.Bytes AbiType.Syntax AbiType.Model Ffi.Model Ffi.Spec
-     Ffi.Proofs Ffi.ProofsSpec.
+     Ffi.Proofs Ffi.ProofsSpec Ffi.ProofsRound Ffi.ProofsSig.
 Import ListNotations.
 Local Open Scope string_scope.
+
+(* Vocabulary (Ffi/Spec.v): [parses p] the ABI type parser of pkg/abi accepts the parameter;
+   [wf_names p] member names distinct in every components list; [valid_params l] both, for every
+   parameter of l; [norm p] p with the components under non-tuple types (which no ABI function reads)
+   dropped -- [norm p = p] for [clean] p; [faithful pin (name, schema)] the oracle inputs of the way
+   back say: the jsonschema compile accepts the schema and json.Unmarshal yields the struct that was
+   marshalled; [named e] the entry has a name. *)
+
+(* 0a. Round trip of a function: ABI -> FFI succeeds and the FFI method converts back to the entry
+       with the same name, the same parameter trees (names, types, internal types, indexed flags,
+       nesting; inputs and outputs) and hence the same signature.  Events and errors alike. *)
+Theorem C20_roundtrip :
+  forall e,
+    (valid_params (e_inputs e) -> valid_params (e_outputs e) ->
+     exists m, convertABIFunctionToFFIMethod e = Ok m /\ m_name m = e_name e /\
+       forall pins rets, Forall2 faithful pins (m_params m) -> Forall2 faithful rets (m_returns m) ->
+         let e' := mkEntry EFunction (e_name e) (map norm (e_inputs e)) (map norm (e_outputs e)) in
+         ConvertFFIMethodToABI (m_name m) pins rets = Ok e' /\ SignatureCtx e' = SignatureCtx e) /\
+    (valid_params (e_inputs e) ->
+     exists m, convertABIEventToFFIEvent e = Ok m /\ m_name m = e_name e /\
+       forall pins, Forall2 faithful pins (m_params m) ->
+         let e' := mkEntry EEvent (e_name e) (map norm (e_inputs e)) [] in
+         ConvertFFIEventDefinitionToABI (m_name m) pins = Ok e' /\ SignatureCtx e' = SignatureCtx e) /\
+    (valid_params (e_inputs e) ->
+     exists m, convertABIErrorToFFIError e = Ok m /\ m_name m = e_name e /\
+       forall pins, Forall2 faithful pins (m_params m) ->
+         let e' := mkEntry EError (e_name e) (map norm (e_inputs e)) [] in
+         ConvertFFIErrorDefinitionToABI (m_name m) pins = Ok e' /\ SignatureCtx e' = SignatureCtx e).
+Proof.
+  intros e. split; [exact (roundtrip_function e)|]. split; [exact (roundtrip_event e)|exact (roundtrip_error e)].
+Qed.
+Print Assumptions C20_roundtrip.
+
+(* 0b. [norm] changes nothing on parameters without stray components. *)
+Theorem C20_roundtrip_identity : forall p, clean p -> norm p = p.
+Proof. exact norm_clean. Qed.
+Print Assumptions C20_roundtrip_identity.
+
+(* 0c. Whole ABIs with distinct entry names: ConvertABIToFFI succeeds and holds the converted
+       method / event / error of every named entry, in whatever order Go ranges over the maps
+       returned by Functions() / Events() / Errors() (any permutation). *)
+Theorem C20_roundtrip_abi :
+  forall abi,
+    NoDup (map e_name (filter named abi)) ->
+    (forall e, In e abi -> valid_entry e) ->
+    forall fs evs ers,
+      Permutation fs (Functions abi) -> Permutation evs (Events abi) -> Permutation ers (Errors abi) ->
+      exists ffi, ConvertABIToFFI_ord fs evs ers = Ok ffi /\
+        forall e, In e abi -> e_name e <> [] ->
+          (IsFunction e = true -> exists m, In m (f_methods ffi) /\ convertABIFunctionToFFIMethod e = Ok m) /\
+          (e_type e = EEvent -> exists m, In m (f_events ffi) /\ convertABIEventToFFIEvent e = Ok m) /\
+          (e_type e = EError -> exists m, In m (f_errors ffi) /\ convertABIErrorToFFIError e = Ok m).
+Proof. exact roundtrip_abi. Qed.
+Print Assumptions C20_roundtrip_abi.
+
+(* 0d. The stand-alone signature helper returns the entry's own signature, on parameters the parser
+       accepts and that spell every type with explicit widths (no "int", "uint", "fixed", "ufixed"
+       alias at any depth) -- the type trees of C02. *)
+Theorem C20_signature_helper :
+  forall e,
+    Forall parses (e_inputs e) -> forallb explicit_widths (e_inputs e) = true ->
+    SignatureCtx e = Ok (ABIMethodToSignature e).
+Proof. exact signature_helper. Qed.
+Print Assumptions C20_signature_helper.
+
+(* non-vacuity: f(p tuple[][] {a uint256, b tuple {c bool}}) -> (q uint8) meets the hypotheses; the
+   whole chain computes, and the alias "uint" shows the explicit-width guard is needed *)
+Example C20_roundtrip_nonvacuous :
+  let P n t cs := FParam (str n) (str t) [] false cs in
+  let p := P "p" "tuple[][]" [P "a" "uint256" []; P "b" "tuple" [P "c" "bool" []]] in
+  let e := mkEntry EFunction (str "f") [p] [P "q" "uint8" []] in
+  (exists tc, parseABIParameterComponents (erase p) = Ok tc) /\
+  match convertABIFunctionToFFIMethod e with
+  | Ok m =>
+      let pin ns := mkPin (fst ns) true (Some (Some (snd ns))) in
+      match ConvertFFIMethodToABI (m_name m) (map pin (m_params m)) (map pin (m_returns m)) with
+      | Ok e' => SignatureCtx e' = Ok (str "f((uint256,(bool))[][])") /\
+                 ABIMethodToSignature e' = str "f((uint256,(bool))[][])"
+      | _ => False
+      end
+  | _ => False
+  end /\
+  explicit_widths p = true /\
+  explicit_widths (P "x" "uint" []) = false /\
+  SignatureCtx (mkEntry EFunction (str "g") [P "x" "uint" []] []) = Ok (str "g(uint256)") /\
+  ABIMethodToSignature (mkEntry EFunction (str "g") [P "x" "uint" []] []) = str "g(uint)".
+Proof. vm_compute. split; [eexists; reflexivity|]. repeat split. Qed.
 
 (* 1. Converting an arbitrary interface definition to ABI never panics: for every name, every list
       of parameters / returns, every verdict of the jsonschema compile and every value (error, nil,
